@@ -205,6 +205,10 @@ def entry_points(n, conn, seed):
     prep.h(0)
     prep.cx(0, n)
     ql = list(range(1, n + 1))
+    from .. import tomo
+    smc = T.stabilizer_measurement_circuit(QuantumCircuit(n), Stabilizer((R.copy(), S.copy(), ph.copy())), conn)
+    counts = {tomo.key_of(b, n): 3 + (b * 7 + seed) % 11 for b in range(1 << n) if (b + seed) % 3}
+    clist = [dict(counts), {tomo.key_of(b, n): 1 + (b * 5 + seed) % 13 for b in range(1 << n)}, dict(counts)]
     eps = [
         ("get_preparation_circuit", lambda: sc.get_preparation_circuit(st, conn), [st]),
         ("get_readout_circuit", lambda: sc.get_readout_circuit(st, conn), [st]),
@@ -219,6 +223,9 @@ def entry_points(n, conn, seed):
         ("get_available_connectivities", lambda: cs.get_available_connectivities(), []),
         ("stabilizer_measurement_circuit", lambda: T.stabilizer_measurement_circuit(prep, st, conn, ql), [prep, st, ql]),
         ("full_state_tomography_circuits", lambda: T.full_state_tomography_circuits(prep, conn, ql), [prep, ql]),
+        ("StabilizerMeasurementFitter.expectation_values", lambda: T.StabilizerMeasurementFitter(tomo.FakeResult(counts), smc).expectation_values(), [counts, smc]),
+        ("StabilizerMeasurementFitter.expectation_values[result_index]", lambda: T.StabilizerMeasurementFitter(tomo.FakeResult(clist), smc, result_index=1).expectation_values(full_hilbert_space=False), [clist, smc]),
+        ("StabilizerMeasurementFitter.density_matrix", lambda: T.StabilizerMeasurementFitter(tomo.FakeResult(counts), smc).density_matrix(), [counts, smc]),
         ("determine_lc_class", lambda: lcc.determine_lc_class(st), [st]),
         ("LCClass.get_graph", lambda: LC(k).get_graph(), []),
         ("Stabilizer(graph)", lambda: Stabilizer(g), [g]),
@@ -227,6 +234,11 @@ def entry_points(n, conn, seed):
         ("find_local_clifford_layer", lambda: fl.find_local_clifford_layer(st.R, st.S, g), [st, g]),
         ("Graph.local_complemented", lambda: g.local_complemented(0), [g]),
     ]
+    if n <= 3:
+        fcs = T.full_state_tomography_circuits(QuantumCircuit(n), conn)
+        fcounts = [{tomo.key_of(b, n): 2 + (b * 3 + j + seed) % 9 for b in range(1 << n) if (b + j) % 4} for j in range(len(fcs))]
+        eps.append(("FullStateTomographyFitter.expectation_values", lambda: T.FullStateTomographyFitter(tomo.FakeResult(fcounts), fcs).expectation_values(), [fcounts, fcs]))
+        eps.append(("FullStateTomographyFitter.density_matrix", lambda: T.FullStateTomographyFitter(tomo.FakeResult(fcounts), fcs).density_matrix(), [fcounts, fcs]))
     return eps
 
 
